@@ -37,7 +37,7 @@ class DocGen:
 
     LOOKALIKE = [True, False, 0, 1, -1, 1.0, 0.0, 0.5, 2, "", "a", "b", "1", "0", "true", None, [], {}, [1], [True], [1.0], {"a": 1}, {"a": True}]
 
-    def __init__(self, r, *, profile="unique", hostile=0.5, max_depth=4, fan=4, names=None):
+    def __init__(self, r, *, profile="unique", hostile=0.5, max_depth=4, fan=4, names=None, alias=0.0):
         self.r = r
         self.profile = profile
         self.hostile = hostile
@@ -45,6 +45,8 @@ class DocGen:
         self.fan = fan
         self.n = 0
         self.names = names
+        self.alias = alias      # probability of re-using an already built container object at another location
+        self.built = []
 
     def leaf(self):
         r = self.r
@@ -71,13 +73,20 @@ class DocGen:
         k = force or ("leaf" if depth >= self.max_depth else r.choice(["obj", "arr", "leaf", "obj", "arr"]))
         if depth == 0 and force is None:
             k = r.choice(["obj", "arr"])
+        if self.alias and depth > 0 and self.built and k != "leaf" and r.random() < self.alias:
+            return r.choice(self.built)  # the same Python object at a second location (no cycles: built bottom-up)
         if k == "obj":
             out = {}
             for _ in range(r.randint(0, self.fan)):
                 out[self.name()] = self.value(depth + 1)
+            if depth > 0:
+                self.built.append(out)
             return out
         if k == "arr":
-            return [self.value(depth + 1) for _ in range(r.randint(0, self.fan + 1))]
+            out = [self.value(depth + 1) for _ in range(r.randint(0, self.fan + 1))]
+            if depth > 0:
+                self.built.append(out)
+            return out
         return self.leaf()
 
 
